@@ -7,6 +7,7 @@ H = "xsdata.formats.dataclass.parsers.handlers.native:XmlEventHandler"
 
 def register(db):
     collab.declare(db)
+    register_nodes(db)
     P = ["C09"]
     db.add(Contract(
         "xsdata.formats.dataclass.parsers.utils:ParserUtils.normalize_content",
@@ -89,11 +90,12 @@ def register(db):
         params={"value": "str", "ns_map": NSMAP},
         ghost={"w1": "str", "p": "str", "l": "str", "w2": "str"},
         requires=[f"matches(w1, '{WS}')", f"matches(w2, '{WS}')", "value == w1 + p + ':' + l + w2"] + TOKENS,
-        hints=[f"strip_core(value, w1, '{WS}', w2, p + ':' + l)", "cut_at(p, ':', l)"],
+        hints=[f"strip_core(value, w1, '{WS}', w2, p + ':' + l)", "cut_at(p, ':', l)", "head_of(p, ':' + l)"],
         ensures=[("prefix-bound", "p in ns_map and ns_map[p] != ''"),
                  ("expanded-name", "implies(p in ns_map, result == (ns_map[p], l))"),
                  ("local-is-ncname", "uf('is_ncname', 'bool', l) and ' ' not in l")],
         raises={"ConverterError": "not (p in ns_map and ns_map[p] != '') or not uf('is_ncname', 'bool', l) or ' ' in l"},
+        returns="tuple[str|None,str]",
         properties=P + ["C05", "C15"],
     ))
     db.add(Contract(
@@ -121,11 +123,13 @@ def register(db):
         requires=[f"matches(w1, '{WS}')", f"matches(w2, '{WS}')"] + TOKENS
         + ["len(p2) > 0", "':' not in p2", "p2[0:1] != '{'", "py_strip(p2 + ':' + l) == p2 + ':' + l",
            "p in m and p2 in m2 and m[p] == m2[p2]"],
-        hints=[f"strip_core(w1 + p + ':' + l + w2, w1, '{WS}', w2, p + ':' + l)", "cut_at(p, ':', l)",
-               f"strip_core(w1 + p2 + ':' + l + w2, w1, '{WS}', w2, p2 + ':' + l)", "cut_at(p2, ':', l)"],
+        call_variants={f"{CONV}:QNameConverter.resolve": [
+            ("prefixed", {"w1": "w1", "p": "p", "l": "l", "w2": "w2"}),
+            ("prefixed", {"w1": "w1", "p": "p2", "l": "l", "w2": "w2"})]},
         ensures=[("same-expanded-name", "result[0] == result[1]")],
         raises={"ConverterError": True},
         properties=P,
+        note="a lemma over the contract of QNameConverter.resolve (both calls are checked against its 'prefixed' variant)",
     ))
 
     PU = "xsdata.formats.dataclass.parsers.utils:ParserUtils"
@@ -136,7 +140,7 @@ def register(db):
         ghost={"w1": "str", "p": "str", "l": "str", "w2": "str"},
         requires=[f"'{XSI_TYPE}' in attrs", f"matches(w1, '{WS}')", f"matches(w2, '{WS}')",
                   f"attrs['{XSI_TYPE}'] == w1 + p + ':' + l + w2"] + TOKENS,
-        hints=[f"strip_core(w1 + p + ':' + l + w2, w1, '{WS}', w2, p + ':' + l)", "cut_at(p, ':', l)"],
+        call_variants={f"{CONV}:QNameConverter.resolve": [("prefixed", {"w1": "w1", "p": "p", "l": "l", "w2": "w2"})]},
         ensures=[("expanded-type-name", "implies(p in ns_map, result == clark_build(ns_map[p], l))")],
         raises={"ConverterError": True},
         properties=P + ["C15"],
@@ -156,4 +160,54 @@ def register(db):
                  ("true-literal", "implies('{http://www.w3.org/2001/XMLSchema-instance}nil' in attrs and attrs['{http://www.w3.org/2001/XMLSchema-instance}nil'] == 'true', result == True)")],
         raises={}, returns="bool|None",
         properties=["C03", "C10"],
+    ))
+
+
+def register_nodes(db):
+    """ElementNode.build_node: the child node and its xsi:type live in the CHILD element's namespace scope."""
+    from pyvc.contracts import assume_method
+    from .c10_strictness import element_node
+
+    EL = "xsdata.formats.dataclass.parsers.nodes.element:ElementNode"
+    PU = "xsdata.formats.dataclass.parsers.utils:ParserUtils"
+    db.add(Contract(f"{PU}.xsi_type", variant="call-view", trusted=True, call_default=True, params={}, returns="str|None",
+                    raises={"ConverterError": True},
+                    call_ensures=["result == uf('xsi_type', 'str|None', attrs, ns_map)"],
+                    note="call-site view of ParserUtils.xsi_type: a function of the attributes and the prefix map it is given"))
+    db.add(Contract(f"{PU}.xsi_nil", variant="call-view", trusted=True, call_default=True, params={}, returns="bool|None", raises={},
+                    call_ensures=["result == uf('xsi_nil', 'bool|None', attrs)"]))
+    db.add(Contract("xsdata.models.enums:DataType.from_qname", trusted=True, params={}, returns="u:DataType|None", raises={},
+                    call_ensures=["result == uf('DataType.from_qname', 'u:DataType|None', qname)"]))
+    for f, srt in (("process_contents", "str"), ("any_type", "bool"), ("is_wildcard", "bool"), ("nillable", "bool"),
+                   ("clazz", "u:type|None"), ("is_clazz_union", "bool")):
+        collab.field(db, "XmlVar", f, srt)
+    collab.field(db, "XmlMeta", "mixed_content", "bool")
+    collab.field(db, "XmlMeta", "clazz", "u:type")
+    NODES = "xsdata.formats.dataclass.parsers.nodes"
+    db.inline.add(f"{EL}.build_element_node")
+    db.inline.add(f"{EL}.__init__")
+
+    def plain_ctor(fields):
+        def ctor(ex, st, cref, args, kwargs):
+            from pyvc.values import Obj
+            o = Obj(f"{cref.module}:{cref.qualname}", dict(zip(fields, args)))
+            o.fields.update(kwargs)
+            yield st, st.alloc(o)
+        return ctor
+
+    db.ctors[(f"{NODES}.union", "UnionNode")] = plain_ctor([])
+    db.ctors[(f"{NODES}.primitive", "PrimitiveNode")] = plain_ctor(["meta", "var", "ns_map", "config"])
+    db.ctors[(f"{NODES}.standard", "StandardNode")] = plain_ctor(["meta", "var", "datatype", "ns_map", "config", "nillable", "derived_factory"])
+    db.ctors[(f"{NODES}.wildcard", "WildcardNode")] = plain_ctor([])
+    db.add(Contract(
+        f"{EL}.build_node", variant="body", 
+        params={"self": element_node, "qname": "str", "var": "opaque:XmlVar", "attrs": "opaque:PyDict", "ns_map": "opaque:PyDict", "position": "int"},
+        ensures=[
+            ("xsi-type-resolved-in-the-element-own-scope",
+             "implies(not var.is_clazz_union, called('ParserUtils.xsi_type') == 1 and call_arg('ParserUtils.xsi_type', 2) is ns_map and call_arg('ParserUtils.xsi_type', 1) is attrs)"),
+            ("created-node-keeps-the-element-own-scope", "implies(result is not None, result.ns_map is ns_map)"),
+        ],
+        raises={"ParserError": True, "ConverterError": True, "XmlContextError": True},
+        properties=["C09", "C15"],
+        note="node constructors are modelled as plain records of their arguments",
     ))
